@@ -66,7 +66,7 @@ def kv_run(ctx, prop, design_props, what):
     env = {"VERIF_OUT": out, "VERIF_BEH": behfile, "VERIF_KV_T": 200,
            "VERIF_KV_RANDOM": 60 if quick else 1500, "VERIF_KV_RANDOM_LEN": 120 if quick else 200,
            "VERIF_KV_CHURN": 4 if quick else 60, "VERIF_KV_CHURN_LEN": 2500 if quick else 20000,
-           "VERIF_KV_BIG": 0 if quick else 2}
+           "VERIF_KV_BIG": 0 if quick else 2, "VERIF_KV_LARGE": 2 if quick else 30}
     rc, o = vlib.go_test(ctx, "kv", "TestKV", env=env, timeout=1500)
     if crash_or_fail(ctx, rc, o, "running storage programs"):
         return {"evaluations": 0, "distinct_nontrivial": 0, "rule": KV_RULE, "samples": ["crash"]}
